@@ -72,6 +72,24 @@ def restrictClass (base own : List (Str × OAttr)) : List (Str × OAttr) × List
     fun (n, b) => (n, { b with max := 0, default := none })
   (prohibited ++ kept, base')
 
+/-- `FlattenClassExtensions.have_unordered_sequences` for a restriction of a base class that has no
+base of its own (FLATTEN step: every element of an `xs:sequence` carries a sequence id): the
+re-declared, non-prohibited elements, if more than one, must be the base elements of those names in
+base order; otherwise `should_remove_extension` drops the restriction base and the derived class
+stands alone (python field order of a subclass follows the base class). -/
+def haveUnorderedSequences (base own : List (Str × OAttr)) : Bool :=
+  let sequence := (own.filter (!·.2.isProhibited)).map (·.1)
+  let compare := (base.map (·.1)).filter (sequence.contains ·)
+  sequence.length > 1 && !compare.isEmpty && compare != sequence
+
+/-- a type derived by restriction through the pipeline: whether the generated class still inherits
+from the base class, its attrs, and the base attrs after the run.  Without the base nothing is
+inherited, overridden or prohibited: `ValidateAttributesOverrides.validate_attrs` only removes the
+prohibited re-declarations. -/
+def restrictDerived (base own : List (Str × OAttr)) : Bool × List (Str × OAttr) × List (Str × OAttr) :=
+  if haveUnorderedSequences base own then (false, own.filter (!·.2.isProhibited), base)
+  else (true, (restrictClass base own).1, (restrictClass base own).2)
+
 /-- the element fields of the dataclass of the derived class: inherited fields in the base order,
 an override in the place of the field it overrides, then the new fields -/
 def derivedFields (base derived : List (Str × OAttr)) : List (Str × OAttr) :=
